@@ -134,6 +134,20 @@ func checkC18(c *Ctx) {
 			s = c09Base(r)
 			descr = "numeric: " + c18Numeric(r, s)
 			tags["class"] = "numeric"
+		case k < 6 && chance(r, 25):
+			// annotation maps near the size limit (256 KiB each): spec level and devices separately
+			s = c09Base(r)
+			big := func(tag string, n int) map[string]string {
+				return map[string]string{"big-" + tag: strings.Repeat("x", n), "k-" + tag: "v"}
+			}
+			sizes := [][2]int{{140 << 10, 140 << 10}, {262000, 262000}, {200 << 10, 100 << 10}, {262144 - 16, 10}}[r.Intn(4)]
+			s.Annotations = big("spec", sizes[0])
+			s.Devices[len(s.Devices)-1].Annotations = big("last", sizes[1])
+			if chance(r, 50) {
+				s.Devices[0].Annotations = big("first", sizes[1])
+			}
+			descr = fmt.Sprintf("annotation sizes: spec %d bytes, device %d bytes", sizes[0], sizes[1])
+			tags["class"] = "annotation-size"
 		case k < 6:
 			// annotation keys of every shape; the ill-formed ones are not library-valid (then skipped)
 			s = c09Base(r)
@@ -173,11 +187,17 @@ func checkC18(c *Ctx) {
 				valid = false
 			}
 		}
+		if tags["class"] != "" {
+			c.Count("generated:"+tags["class"], 1)
+		}
 		if !valid {
 			c.Count("skipped_not_library_valid", 1)
 			return
 		}
 		c.Count("library_valid_specs", 1)
+		if tags["class"] != "" {
+			c.Count("library_valid:"+tags["class"], 1)
+		}
 		c.Distinct(fmt.Sprintf("%s|%s|%s|%s", tags["field"], tags["class"], descrKind(descr), mMinVersion(s)))
 		var verr error
 		if pv, st := guard(func() { verr = builtin.Validate(s) }); pv != nil {
